@@ -17,7 +17,7 @@ func TestDescribe(t *testing.T) {
 	}
 	b, _ := json.Marshal(map[string]interface{}{
 		"id": p.ID, "flavour": flavourName, "rule": p.Rule, "real": p.Real, "stub": p.Stub,
-		"assumptions": p.Assumptions, "required_probes": p.RequiredProbes, "level": p.Level, "not_injected": p.NotInjected,
+		"assumptions": p.Assumptions, "required_probes": p.RequiredProbes, "level": p.Level, "not_injected": p.NotInjected, "required_sites": p.RequiredSites,
 	})
 	fmt.Printf("DESCRIBE %s\n", b)
 }
